@@ -11,6 +11,7 @@ import (
 	"hash/fnv"
 	"os"
 	"os/exec"
+	"regexp"
 	"sort"
 	"strings"
 	"sync"
@@ -251,6 +252,7 @@ type taskMsg struct {
 	Scenario string `json:"scenario"`
 	Prefix   []int  `json:"prefix"`
 	Deadline int64  `json:"deadline_unix_ms"`
+	Expand   int    `json:"expand,omitempty"` // >0: run the determinism guard and expand the frontier to this width
 }
 
 type resultMsg struct {
@@ -274,6 +276,13 @@ func WorkerLoop(reg map[string]*Scenario) {
 			return
 		}
 		sc := reg[t.Scenario]
+		if t.Expand > 0 {
+			b, _ := json.Marshal(expandLocal(sc, t.Expand))
+			out.Write(b)
+			out.WriteByte('\n')
+			out.Flush()
+			continue
+		}
 		st := newStats(sc)
 		var dl time.Time
 		if t.Deadline > 0 {
@@ -293,26 +302,28 @@ func WorkerLoop(reg map[string]*Scenario) {
 	}
 }
 
-// Explore runs one scenario completely: frontier expansion in this process, subtrees on workers.
-func Explore(sc *Scenario, workers int, deadline time.Time, selfArgs []string) *Stats {
-	t0 := time.Now()
+// expandMsg is the worker's answer to an "expand" task: the frontier after breadth-first expansion.
+type expandMsg struct {
+	Stats     *Stats   `json:"stats"`
+	Found     []Found  `json:"found"`
+	Outcomes  []uint64 `json:"outcomes"`
+	Frontier  [][]int  `json:"frontier"`
+	Nondet    bool     `json:"nondet"`
+	NondetLog []string `json:"nondet_log"`
+}
+
+// expandLocal runs the determinism guard and the breadth-first frontier expansion (in a worker).
+func expandLocal(sc *Scenario, target int) *expandMsg {
 	st := newStats(sc)
-	// determinism guard: the empty prefix twice must give identical logs
-	{
-		a := mc.Run(cfgOf(sc), nil, sc.Run)
-		b := mc.Run(cfgOf(sc), nil, sc.Run)
-		if outcomeHash(a) != outcomeHash(b) || len(a.Points) != len(b.Points) {
-			st.Found = append(st.Found, Found{Scenario: sc.Name, Class: "INFRA:nondeterministic", Msg: "two runs of the empty prefix differ", Log: append(logStrings(a), logStrings(b)...)})
-			st.ClassCount["INFRA:nondeterministic"]++
-			return st
-		}
+	m := &expandMsg{Stats: st}
+	a := mc.Run(cfgOf(sc), nil, sc.Run)
+	b := mc.Run(cfgOf(sc), nil, sc.Run)
+	if outcomeHash(a) != outcomeHash(b) || len(a.Points) != len(b.Points) {
+		m.Nondet = true
+		m.NondetLog = append(logStrings(a), logStrings(b)...)
+		return m
 	}
 	frontier := [][]int{{}}
-	target := workers * 24
-	if workers <= 1 {
-		target = 0
-	}
-	// breadth-first expansion until the frontier is wide enough
 	for len(frontier) > 0 && len(frontier) < target {
 		p := frontier[0]
 		frontier = frontier[1:]
@@ -324,14 +335,130 @@ func Explore(sc *Scenario, workers int, deadline time.Time, selfArgs []string) *
 			break
 		}
 	}
-	if len(frontier) == 0 {
+	m.Frontier = frontier
+	m.Found = st.Found
+	for k := range st.Outcomes {
+		if len(m.Outcomes) < 20000 {
+			m.Outcomes = append(m.Outcomes, k)
+		}
+	}
+	st.States = int64(len(st.fpSet))
+	return m
+}
+
+// worker is one supervised child process.
+type worker struct {
+	cmd   *exec.Cmd
+	stdin interface {
+		Write([]byte) (int, error)
+		Close() error
+	}
+	rd *bufio.Reader
+}
+
+func startWorker(selfArgs []string, perWorkerCap int64) (*worker, error) {
+	args := append(append([]string{}, selfArgs...), "-worker")
+	if perWorkerCap > 0 {
+		args = append(args, fmt.Sprintf("-workercap=%d", perWorkerCap))
+	}
+	cmd := exec.Command(os.Args[0], args...)
+	cmd.Env = append(os.Environ(), "GOMAXPROCS=2")
+	cmd.Stderr = os.Stderr
+	stdin, _ := cmd.StdinPipe()
+	stdout, _ := cmd.StdoutPipe()
+	if err := cmd.Start(); err != nil {
+		return nil, err
+	}
+	return &worker{cmd: cmd, stdin: stdin, rd: bufio.NewReaderSize(stdout, 1<<20)}, nil
+}
+
+// call sends one task and reads one line; died reports that the process ended instead of answering
+// (rest holds whatever it printed, e.g. the MC-HANG line).
+func (w *worker) call(t taskMsg) (line []byte, died bool, rest string) {
+	b, _ := json.Marshal(t)
+	w.stdin.Write(append(b, '\n'))
+	for {
+		l, err := w.rd.ReadBytes('\n')
+		if err != nil {
+			w.cmd.Wait()
+			return nil, true, rest + string(l)
+		}
+		if len(l) > 0 && l[0] == '{' {
+			return l, false, rest
+		}
+		rest += string(l)
+	}
+}
+
+func (w *worker) stop() {
+	w.stdin.Close()
+	w.cmd.Wait()
+}
+
+var hangRe = regexp.MustCompile(`MC-HANG prefix=\[([0-9 ]*)\] steps=(\d+)(?: in=(\S+))?`)
+
+// hangFound turns the last words of a dead worker into a finding.
+func hangFound(sc *Scenario, below []int, rest string) Found {
+	if m := hangRe.FindStringSubmatch(rest); m != nil {
+		var ch []int
+		for _, f := range strings.Fields(m[1]) {
+			var v int
+			fmt.Sscan(f, &v)
+			ch = append(ch, v)
+		}
+		fn := m[3]
+		if fn == "" {
+			fn = "unknown"
+		}
+		return Found{Scenario: sc.Name, Class: sc.Prop + ":hang:" + fn, Msg: fmt.Sprintf("an execution stopped reaching visible operations for the whole watchdog period (a loop that never blocks) in %s after %s visible steps; choice prefix %v", fn, m[2], ch), Choices: ch}
+	}
+	return Found{Scenario: sc.Name, Class: "HANG-OR-CRASH", Msg: fmt.Sprintf("worker died exploring below prefix %v: %s", below, rest), Choices: below}
+}
+
+// Explore runs one scenario completely. The supervising process never executes scenario code:
+// the determinism guard, the frontier expansion and the subtrees all run in worker processes, so
+// code under test that loops without yielding, or crashes the runtime, becomes a finding.
+func Explore(sc *Scenario, workers int, deadline time.Time, selfArgs []string) *Stats {
+	t0 := time.Now()
+	st := newStats(sc)
+	if workers < 1 {
+		workers = 1
+	}
+	target := workers * 24
+	if workers <= 1 {
+		target = 1
+	}
+	w0, err := startWorker(selfArgs, 0)
+	if err != nil {
+		st.Found = append(st.Found, Found{Scenario: sc.Name, Class: "INFRA:worker", Msg: err.Error()})
+		st.ClassCount["INFRA:worker"]++
+		return st
+	}
+	line, died, rest := w0.call(taskMsg{Scenario: sc.Name, Expand: target})
+	if died {
+		f := hangFound(sc, nil, rest)
+		st.Found = append(st.Found, f)
+		st.ClassCount[f.Class]++
+		st.Exhaustive = false
+		st.Capped = "expansion aborted: " + f.Class
 		finish(st, t0)
 		return st
 	}
-	if workers <= 1 {
-		for _, p := range frontier {
-			Subtree(sc, p, st, deadline)
-		}
+	w0.stop()
+	var ex expandMsg
+	if err := json.Unmarshal(line, &ex); err != nil {
+		st.Found = append(st.Found, Found{Scenario: sc.Name, Class: "INFRA:worker", Msg: "bad expand result: " + err.Error()})
+		st.ClassCount["INFRA:worker"]++
+		return st
+	}
+	if ex.Nondet {
+		st.Found = append(st.Found, Found{Scenario: sc.Name, Class: "INFRA:nondeterministic", Msg: "two runs of the empty prefix differ", Log: ex.NondetLog})
+		st.ClassCount["INFRA:nondeterministic"]++
+		return st
+	}
+	merge(st, &resultMsg{Stats: ex.Stats, Found: ex.Found, Outcomes: ex.Outcomes})
+	frontier := ex.Frontier
+	if len(frontier) == 0 {
 		finish(st, t0)
 		return st
 	}
@@ -350,26 +477,18 @@ func Explore(sc *Scenario, workers int, deadline time.Time, selfArgs []string) *
 		}
 	}
 	infra := ""
+	deaths := 0
 	for w := 0; w < workers; w++ {
 		wg.Add(1)
 		go func(w int) {
 			defer wg.Done()
-			args := append(append([]string{}, selfArgs...), "-worker")
-			if perWorkerCap > 0 {
-				args = append(args, fmt.Sprintf("-workercap=%d", perWorkerCap))
-			}
-			cmd := exec.Command(os.Args[0], args...)
-			cmd.Env = append(os.Environ(), "GOMAXPROCS=2")
-			cmd.Stderr = os.Stderr
-			stdin, _ := cmd.StdinPipe()
-			stdout, _ := cmd.StdoutPipe()
-			if err := cmd.Start(); err != nil {
+			wk, err := startWorker(selfArgs, perWorkerCap)
+			if err != nil {
 				mu.Lock()
 				infra = err.Error()
 				mu.Unlock()
 				return
 			}
-			rd := bufio.NewReaderSize(stdout, 1<<20)
 			for p := range tasks {
 				if !deadline.IsZero() && time.Now().After(deadline) {
 					mu.Lock()
@@ -378,21 +497,37 @@ func Explore(sc *Scenario, workers int, deadline time.Time, selfArgs []string) *
 					mu.Unlock()
 					continue
 				}
+				mu.Lock()
+				tooMany := deaths >= 6
+				mu.Unlock()
+				if tooMany {
+					mu.Lock()
+					st.Exhaustive = false
+					st.Capped = "stopped after 6 worker deaths"
+					mu.Unlock()
+					continue
+				}
 				var dl int64
 				if !deadline.IsZero() {
 					dl = deadline.UnixMilli()
 				}
-				b, _ := json.Marshal(taskMsg{Scenario: sc.Name, Prefix: p, Deadline: dl})
-				stdin.Write(append(b, '\n'))
-				line, err := rd.ReadBytes('\n')
-				if err != nil {
-					// worker died: hang (exit 3) or crash
-					cmd.Wait()
+				line, died, rest := wk.call(taskMsg{Scenario: sc.Name, Prefix: p, Deadline: dl})
+				if died {
+					f := hangFound(sc, p, rest)
 					mu.Lock()
-					st.Found = append(st.Found, Found{Scenario: sc.Name, Class: "HANG-OR-CRASH", Msg: fmt.Sprintf("worker died exploring below prefix %v: %v %s", p, err, string(line)), Choices: p})
-					st.ClassCount["HANG-OR-CRASH"]++
+					deaths++
+					if st.ClassCount[f.Class] == 0 {
+						st.Found = append(st.Found, f)
+					}
+					st.ClassCount[f.Class]++
+					st.Exhaustive = false
+					st.Capped = "subtree below a hanging execution not explored"
 					mu.Unlock()
-					return
+					wk, err = startWorker(selfArgs, perWorkerCap)
+					if err != nil {
+						return
+					}
+					continue
 				}
 				var res resultMsg
 				if err := json.Unmarshal(line, &res); err != nil {
@@ -405,8 +540,7 @@ func Explore(sc *Scenario, workers int, deadline time.Time, selfArgs []string) *
 				merge(st, &res)
 				mu.Unlock()
 			}
-			stdin.Close()
-			cmd.Wait()
+			wk.stop()
 		}(w)
 	}
 	wg.Wait()
